@@ -7,11 +7,13 @@ import (
 	"encoding/json"
 	"fmt"
 	"io"
+	"net"
 	"net/http"
 	"os"
 	"regexp"
 	"sort"
 	"strings"
+	"time"
 
 	"github.com/internetarchive/Zeno/internal/pkg/archiver"
 	"github.com/internetarchive/Zeno/internal/pkg/config"
@@ -19,6 +21,7 @@ import (
 	"github.com/internetarchive/Zeno/internal/pkg/postprocessor/domainscrawl"
 	"github.com/internetarchive/Zeno/internal/pkg/preprocessor"
 	"github.com/internetarchive/Zeno/internal/pkg/preprocessor/seencheck"
+	"github.com/internetarchive/Zeno/internal/pkg/source/hq"
 	"github.com/internetarchive/Zeno/pkg/models"
 )
 
@@ -88,6 +91,14 @@ func init() {
 		baseInit()
 		var seed *models.Item
 		seenDir := ""
+		var hqFake *fakeHQ
+		var hqSrv *http.Server
+		stopHQ := func() {
+			if hqSrv != nil {
+				hqSrv.Close()
+				hqSrv, hqFake = nil, nil
+			}
+		}
 		renames := map[*models.Item]string{} // stable ids for nodes created by the postprocessor (uuids otherwise)
 		counter := 0
 		nameOf := func(n *models.Item) string { return n.GetID() }
@@ -124,13 +135,27 @@ func init() {
 				cfg.MaxRedirect = num(in, "maxRedirect", 20)
 				cfg.DisableSeencheck = boolean(in, "disableSeencheck", false)
 				cfg.UseSeencheck = !cfg.DisableSeencheck
-				cfg.UseHQ = false
+				cfg.UseHQ = boolean(in, "useHQ", false)
 				cfg.UserAgent = "verif"
 				domainscrawl.Reset()
 				if dc := strList(in, "domainsCrawl"); len(dc) > 0 {
 					domainscrawl.AddElements(dc)
 				}
 				if boolean(in, "resetSeen", true) {
+					stopHQ()
+					if cfg.UseHQ {
+						hqFake = &fakeHQ{seen: map[string]bool{}, record: true}
+						for _, v := range strList(in, "hqSeen") {
+							hqFake.seen[v] = true
+						}
+						ln, err := net.Listen("tcp", "127.0.0.1:0")
+						if err != nil {
+							return "harness-error " + err.Error()
+						}
+						hqSrv = &http.Server{Handler: hqFake}
+						go hqSrv.Serve(ln)
+						hq.VerifSetClient(newHQClient("http://"+ln.Addr().String(), 5*time.Second))
+					}
 					if seenDir != "" {
 						seencheck.Close()
 						os.RemoveAll(seenDir)
@@ -178,7 +203,24 @@ func init() {
 				b, _ := json.Marshal(out)
 				return string(b)
 			case "pre":
+				n0 := 0
+				if hqFake != nil {
+					hqFake.mu.Lock()
+					n0 = len(hqFake.seenLog)
+					hqFake.mu.Unlock()
+				}
 				preprocessor.VerifPreprocess(seed)
+				if cfg.UseHQ && hqFake != nil {
+					var sent []string
+					hqFake.mu.Lock()
+					for _, req := range hqFake.seenLog[n0:] {
+						for _, u := range req {
+							sent = append(sent, hx(u.Value))
+						}
+					}
+					hqFake.mu.Unlock()
+					return stageDump(seed) + " sent=" + strings.Join(sent, ",")
+				}
 				return stageDump(seed)
 			case "arch":
 				// scripted outcomes for the nodes that carry a request
@@ -262,6 +304,7 @@ func init() {
 				}
 				return "none"
 			case "close":
+				stopHQ()
 				if seenDir != "" {
 					seencheck.Close()
 					os.RemoveAll(seenDir)
